@@ -1,5 +1,5 @@
 """Shared machinery of the checks: builds, process plumbing, PRNG, audit, evidence, verdicts."""
-import hashlib, json, os, re, resource, subprocess, sys, time
+import shutil, hashlib, json, os, re, resource, subprocess, sys, time
 
 VERIF = os.path.dirname(os.path.dirname(os.path.dirname(os.path.abspath(__file__))))
 REPO = os.environ.get("QCO_REPO", "/repo")
@@ -81,12 +81,30 @@ def lake_build(targets):
     rc, out = sh(["lake", "build"] + targets, cwd=LEAN, timeout=3000)
     return rc == 0, out
 
+HOOKS_OK = True
+HOOKS_ERR = ""
+
 def build_harness():
+    """the harness against /repo's working tree, with the guarded hooks on. If the hooks do not compile against the
+    working tree (they call crate-private functions whose signatures a change may have altered) the harness is built
+    without them: every public-API stream and oracle still runs, the hook streams answer `no-hooks` (a broken tie)."""
+    global HOOKS_OK, HOOKS_ERR
     os.makedirs(BUILD, exist_ok=True)
-    lock = os.path.join(HARNESS_DIR, "Cargo.lock")
     rc, out = sh(["cargo", "build", "--release", "--offline"], cwd=HARNESS_DIR, timeout=3000,
                  env={"CARGO_TARGET_DIR": os.path.join(BUILD, "harness-target"),
                       "RUSTFLAGS": "--cfg mwlon_quantile_compression_verif"})
+    HOOKS_OK = rc == 0
+    if rc != 0:
+        HOOKS_ERR = out
+        rc, out2 = sh(["cargo", "build", "--release", "--offline"], cwd=HARNESS_DIR, timeout=3000,
+                      env={"CARGO_TARGET_DIR": os.path.join(BUILD, "harness-target-nohooks")})
+        if rc == 0:
+            src = os.path.join(BUILD, "harness-target-nohooks", "release", "qco_harness")
+            dst = os.path.join(BUILD, "harness-target", "release", "qco_harness")
+            os.makedirs(os.path.dirname(dst), exist_ok=True)
+            shutil.copy2(src, dst)
+        else:
+            out = out + "\n--- without hooks ---\n" + out2
     return rc == 0, out
 
 # ------------------------------------------------------------------------------------------
